@@ -301,5 +301,4 @@ def r5(ctx: Ctx) -> None:
         ctx.check(k in read, 'C11.R5', 'config/settings.yaml.example', f'documented:{k}', f'documented setting {k!r} is read by the code',
                   f'the shipped example documents the setting {k!r} (line {line}) but no code reads it: setting it has no effect '
                   + ('(the code reads `decimal_separator`)' if k == 'decimal' else ''))
-    if n < 8:
-        raise AnalysisError(f'C11.R5: only {n} documented keys found')
+    ctx.need(not (n < 8), f'C11.R5: only {n} documented keys found')
